@@ -1,66 +1,267 @@
 """Per-property configuration of bin/check: theorems (proof obligations), correspondence /
 search streams, fact bases, trusted base.  MANIFEST.json is generated from this (bin/mkmanifest)."""
 
+
 def T(module, *names, partial=False):
-    return [{"module": module, "name": n, "partial": partial} for n in names]
+    ns = {"Kanzi.Properties.C16": "Kanzi.C16", "Kanzi.Properties.C07": "Kanzi.C07",
+          "Kanzi.Properties.StreamW": "Kanzi.StreamW", "Kanzi.Properties.StreamR": "Kanzi.StreamR",
+          "Kanzi.Properties.ContainerP": "Kanzi.ContainerP", "Kanzi.Properties.C15": "Kanzi.C15",
+          "Kanzi.Properties.C12_small": "Kanzi.C12", "Kanzi.Properties.C13_small": "Kanzi.C13",
+          "Kanzi.Properties.C14_ibs": "Kanzi.C14", "Kanzi.Properties.C14_obs": "Kanzi.C14",
+          "Kanzi.Properties.C06_ibs": "Kanzi.C06", "Kanzi.Properties.C08_ibs": "Kanzi.C08", "Kanzi.Properties.C08_obs": "Kanzi.C08",
+          "Kanzi.Properties.C10_header": "Kanzi.C10", "Kanzi.Properties.C02_hash": "Kanzi.C02",
+          "Kanzi.Properties.C03_facts": "Kanzi.C03", "Kanzi.Properties.C18_facts": "Kanzi.C18",
+          "Kanzi.Properties.C01": "Kanzi.C01", "Kanzi.Properties.C19_cli": "Kanzi.C19"}[module]
+    return [{"module": module, "name": n if n.startswith("Kanzi.") else ns + "." + n, "partial": partial or n.endswith("_partial")} for n in names]
+
+
+# ---- modules
+M16, M07 = "Kanzi.Properties.C16", "Kanzi.Properties.C07"
+W, R, K = "Kanzi.Properties.StreamW", "Kanzi.Properties.StreamR", "Kanzi.Properties.ContainerP"
+M15, M12, M13 = "Kanzi.Properties.C15", "Kanzi.Properties.C12_small", "Kanzi.Properties.C13_small"
+M14I, M06I, M08I = "Kanzi.Properties.C14_ibs", "Kanzi.Properties.C06_ibs", "Kanzi.Properties.C08_ibs"
+M14O, M08O = "Kanzi.Properties.C14_obs", "Kanzi.Properties.C08_obs"
+M10H, M02H = "Kanzi.Properties.C10_header", "Kanzi.Properties.C02_hash"
+M03F, M18F = "Kanzi.Properties.C03_facts", "Kanzi.Properties.C18_facts"
+M01 = "Kanzi.Properties.C01"
+
+# ---- streams (kmodel => differential against the Lean model; otherwise oracle-only search on the real code)
+NORM = {"name": "norm", "kmodel": "norm"}
+PROTO = {"name": "proto", "kmodel": "proto", "timeout": 1800}
+SW = {"name": "sw", "kmodel": "sw", "timeout": 1800}
+SR = {"name": "sr", "kmodel": "sr", "timeout": 1800}
+NAMES = {"name": "names", "kmodel": "names"}
+HASH = {"name": "hash", "kmodel": "hash", "timeout": 3600}
+IBS = {"name": "ibs", "kmodel": "ibs", "timeout": 3600}
+OBS = {"name": "obs", "kmodel": "obs", "timeout": 3600}
+ENTSMALL = {"name": "entsmall", "kmodel": "entsmall", "timeout": 3600}
+TRSMALL = {"name": "trsmall", "kmodel": "trsmall", "timeout": 3600}
+RT = {"name": "rt", "timeout": 7200}
+RTBIG = {"name": "rtbig", "timeout": 7200}
+DET = {"name": "det", "timeout": 7200}
+NAMESRT = {"name": "namesrt", "timeout": 7200}
+SHORTREAD = {"name": "shortread", "timeout": 7200}
+ENTDIRECT = {"name": "entdirect", "timeout": 7200}
+TRDIRECT = {"name": "trdirect", "timeout": 7200}
+CORRUPT = {"name": "corrupt", "timeout": 7200}
+TRUNC = {"name": "trunc", "timeout": 7200}
+FUZZDEC = {"name": "fuzzdec", "timeout": 7200}
+RACE = {"name": "race", "race": True, "timeout": 7200}
+CLI = {"name": "cli", "kmodel": "cli", "timeout": 7200}
+GOLDEN = {"name": "golden", "timeout": 7200}
+
+C07_ALL = ["C07_enc_mutex", "C07_dec_mutex", "C07_enc_ordered", "C07_dec_ordered", "C07_enc_progress", "C07_dec_progress",
+           "C07_enc_measure_mono", "C07_dec_measure_mono", "C07_enc_measure_init", "C07_dec_measure_init",
+           "C07_enc_cancel_stable", "C07_dec_cancel_stable", "C07_enc_crit_failure_blocks", "C07_dec_crit_failure_blocks",
+           "C07_failure_reported", "C07_first_failure", "C04_schedule_independent", "C05_schedule_independent", "C07_runTrace_sound"]
+
+BASE_NOTE = "Trusted: Lean 4.33.0 kernel (axioms propext, Classical.choice, Quot.sound only; audited with #print axioms on every run; no sorry/native_decide/bv_decide); the hand-written models, tied to /repo on every run by the differential streams named in the evidence (generator-bounded); Go toolchain and Lean compiler for the driver. "
 
 PROPS = {}
 
-PROPS["C16"] = {
-    "title": "Frequency scaling always yields a valid table",
-    "design_ref": "5.16",
-    "level": "proof",
-    "technique": "Lean 4 theorem (all histograms, all scales) over a hand-written model of NormalizeFrequencies + differential correspondence model<->Go",
-    "theorems": T("Kanzi.Properties.C16", "Kanzi.C16.C16_normalize", "Kanzi.C16.C16_errors", "Kanzi.C16.C16_no_overflow"),
-    "streams": [{"name": "norm", "kmodel": "norm"}],
-    "level_text": "PROOF: for every histogram over <=256 symbols with positive total and every scale in [256,65536] the model of NormalizeFrequencies returns a table that sums to scale, preserves the support and lists it in increasing order (Lean theorem C16_normalize, no bound on counts). The model is tied to the Go function on every run by the `norm` correspondence (tens of thousands of histograms incl. exhaustive small families; outputs compared entry by entry) and the property oracle is evaluated on the real function for each of them.",
-    "level_note": "Trusted: Lean kernel (axioms propext/Classical.choice/Quot.sound), the transcription of the Go function into Kanzi/Model/Normalize.lean as checked by the differential stream (generator-bounded), caller contract totalFreq = sum(freqs) (inputs violating it are outside the model and refused with `pre`).",
-    "assumptions": ["caller passes totalFreq = sum of freqs (true at all three call sites)", "Go int is 64-bit (C16_no_overflow bounds intermediates below 2^63 for totals < 2^31)"],
+PROPS["C01"] = {
+    "title": "Lossless round trip through the stream API", "design_ref": "5.1", "level": "proof",
+    "technique": "Lean 4 theorems: writer emits chunks(B,data) for every partition/jobs/hint, container frames parse back, reader returns their concatenation for every jobs/hint/read sizes (composition = round trip under H_codec); transform-sequence skip-flag round trip; NONE codec proved; real-code round-trip search over all codecs",
+    "theorems": T(M01, "C01_roundtrip", "C01_empty_stream") + T(W, "C04_writer_blocks") + T(R, "C05_reader_refines_spec") + T(K, "C10_stream_layout")
+                + T(M13, "C13_sequence", "C13_sequence_mode_byte", "C13_sequence_small") + T(M12, "C12_none"),
+    "streams": [SW, SR, RT, RTBIG],
+    "level_text": "PROOF of the stream layer under assumption H_codec, plus search. Proved for all data, all partitions into Write calls, all job counts on both sides, all size-hint values, all read sizes: Write/Close succeed, the blocks are chunks(B,data), the framed stream parses back to them, and the reader returns exactly data then end-of-stream (C01_roundtrip = C04_writer_blocks + C10_stream_layout + C05_reader_refines_spec); the transform sequence with any pattern of declined stages and both skip-flag layouts round-trips (C13_sequence*); NONE entropy proved (C12_none). ASSUMED (H_codec) for the other transforms/entropy codecs: decode(encode(block)) = block - searched on the real code (rt/rtbig: every transform and entropy, chains up to 8, all data shapes, block sizes, jobs, hints, headerless).",
+    "level_note": BASE_NOTE + "H_codec for 17 transforms and 8 entropy codecs is an assumption covered only by the rt/rtbig search; buffer-size sufficiency of the decoder for chained expanding transforms is searched, not proved.",
+    "assumptions": ["H_codec: per-block decode(encode(b)) = b and consumes exactly the encoder's bits, for codecs other than NONE/ZRLT/SBRT/Null"],
 }
 
-C07_THMS = ["C07_enc_mutex","C07_dec_mutex","C07_enc_ordered","C07_dec_ordered","C07_enc_progress","C07_dec_progress",
-            "C07_enc_measure_mono","C07_dec_measure_mono","C07_enc_measure_init","C07_dec_measure_init",
-            "C07_enc_cancel_stable","C07_dec_cancel_stable","C07_enc_crit_failure_blocks","C07_dec_crit_failure_blocks",
-            "C07_failure_reported","C07_first_failure","C04_schedule_independent","C05_schedule_independent","C07_runTrace_sound"]
-
-PROPS["C07"] = {
-    "title": "Block hand-off protocol: exclusive, ordered, and always terminating",
-    "design_ref": "5.7",
-    "level": "proof",
-    "technique": "Lean 4 invariant proofs for every N and every interleaving over a step-function model of the atomic-counter protocol; hook traces of the real code replayed through the same step functions",
-    "theorems": T("Kanzi.Properties.C07", *["Kanzi.C07." + n for n in C07_THMS]),
-    "streams": [{"name": "proto", "kmodel": "proto", "timeout": 1200}],
-    "level_text": "PROOF for every number of tasks N and every reachable state (all interleavings, failure at any step): mutual exclusion on the shared stream, blocks appended/taken in id order exactly once, deadlock freedom with a measure bounded by 9N (every weakly fair run terminates), cancel value stable, a failure while holding the token blocks all later tasks, batch result = first failed task. Tie: the real encode/decode tasks run under the build-tag hook with perturbed schedules and injected failures; every recorded atomic action (with the counter value it observed) must be an enabled transition of encStep/decStep and the batch outcome must match.",
-    "level_note": "Trusted: Lean kernel; the protocol model Kanzi/Model/Protocol.lean (atomic actions of encode/decode transcribed by hand, tied by trace replay of hook-instrumented real runs: the hook serialises each atomic op between PRE/POST calls so the recorded order is the real order); Go memory model / sync.WaitGroup semantics are not modelled; 'stop promptly' is formalised as bounded own steps + stable cancel.",
-    "assumptions": ["sync/atomic operations are sequentially consistent (Go memory model)", "WaitGroup.Wait returns only after every Done"],
+PROPS["C02"] = {
+    "title": "Checksummed streams never yield wrong bytes", "design_ref": "5.2", "level": "proof",
+    "technique": "Lean 4 theorems on the reader state machine (nothing after an error; every returned byte precedes the failed block) + executable XXHash32/64 and header-CRC models tied differentially; payload-corruption search on real streams",
+    "theorems": T(R, "C02_nothing_after_error", "C05_error_position") + T(M02H, "C02_hash_total", "C02_hash_stripes", "C02_hash_xxh32_vectors") + T(M10H, "C10_header_crc_detects_single_field"),
+    "streams": [SR, HASH, CORRUPT],
+    "level_text": "PROOF of the mechanism, hash quality out of scope. Proved on the reader model for every stream, job count and read-size sequence: a block whose decode/verification fails is reported by the Read that reaches it, every byte ever returned lies before it, and no later Read returns any byte (C05_error_position, C02_nothing_after_error). The XXHash32/64 functions and the header checksum are modelled bit-exactly (BitVec) and tied to the Go code differentially (hash stream). That a modified payload makes the recomputed hash differ is NOT provable for a 32/64-bit hash (collisions exist): searched - bit flips / substitutions / swaps at payload positions computed by an independent container parser, all entropy codecs, checksum 32/64; results must be error or original; true collisions are recognised and logged.",
+    "level_note": BASE_NOTE + "Collision resistance of XXHash is not assumed and not proved; the per-codec decode of corrupted payloads is real code only.",
+    "assumptions": ["a corrupted block either fails to decode or decodes to bytes whose hash differs from the stored one, except for hash collisions (probability 2^-32 / 2^-64 per trial)"],
 }
 
 PROPS["C03"] = {
-    "title": "Decoder is total: arbitrary input never crashes or hangs the process",
-    "design_ref": "5.3",
-    "level": "proof",
+    "title": "Decoder is total: arbitrary input never crashes or hangs the process", "design_ref": "5.3", "level": "proof",
     "technique": "PARTIAL Lean proof: recover discipline decided over a fact base regenerated from /repo on every run + protocol termination theorems for every N; codec internals searched by structure-aware mutation in child processes",
     "facts": ["GoSites"],
-    "theorems": T("Kanzi.Properties.C03_facts", "Kanzi.C03.C03_every_panic_site_recovered", "Kanzi.C03.C03_facts_nonvacuous")
-              + T("Kanzi.Properties.C07", "Kanzi.C07.C07_dec_progress", "Kanzi.C07.C07_dec_measure_mono", "Kanzi.C07.C07_dec_measure_init", "Kanzi.C07.C07_dec_cancel_stable"),
-    "streams": [],
-    "level_text": "PARTIAL PROOF. Proved: (1) every `go` statement of the library spawns a function with a deferred recover and the caller-goroutine entry points recover (theorem by `decide` over Generated/GoSites.lean, which is re-extracted from /repo's AST on every run, so a new unrecovered goroutine breaks the proof); (2) the decode hand-off protocol has no deadlock or endless wait for any number of tasks and any failure placement (C07_dec_progress etc.). NOT proved: termination and memory safety inside each codec's Inverse/Read on attacker-controlled data; those are only searched (structure-aware mutations decoded in child processes with a watchdog).",
-    "level_note": "Trusted: Lean kernel; the syntactic fact extractor harness/cmd/kv/facts_ast.go (go/parser; one level of callee resolution; self-tested); the protocol model tied by hook traces (see C07). Codec internals are outside the model.",
+    "theorems": T(M03F, "C03_every_panic_site_recovered", "C03_facts_nonvacuous")
+                + T(M07, "C07_dec_progress", "C07_dec_measure_mono", "C07_dec_measure_init", "C07_dec_cancel_stable"),
+    "streams": [FUZZDEC],
+    "level_text": "PARTIAL PROOF. Proved: (1) every `go` statement of the library spawns a function with a deferred recover and the caller-goroutine entry points recover (theorem by `decide` over Generated/GoSites.lean, re-extracted from /repo's AST on every run, so a new unrecovered goroutine breaks the proof); (2) the decode hand-off protocol has no deadlock or endless wait for any number of tasks and any failure placement (C07_dec_progress etc.). NOT proved: termination and memory safety inside each codec's Inverse/Read on attacker-controlled data; those are only searched (fuzzdec: structure-aware mutations - re-checksummed headers, forged lengths, forged codec headers, splices, truncations - decoded in child processes with a watchdog).",
+    "level_note": BASE_NOTE + "The syntactic fact extractor harness/cmd/kv/facts_ast.go (go/parser; one level of callee resolution; self-tested). Codec internals are outside the model.",
     "assumptions": ["a deferred recover at the top of every spawned function converts every panic of that goroutine into a task error", "codec Inverse/Read loops terminate (searched, not proved)"],
 }
 
+PROPS["C04"] = {
+    "title": "Compressed output is a pure function of data and parameters", "design_ref": "5.4", "level": "proof",
+    "technique": "Lean 4 theorems: block sequence independent of Write partition, jobs and hint (Writer model); every interleaving of N tasks appends blocks 1..N in order (protocol model, all N); differential correspondence + byte-identity search on the real code",
+    "theorems": T(W, "C04_writer_blocks", "C04_partition_independent", "C04_jobs_independent")
+                + T(M07, "C04_schedule_independent", "C07_enc_ordered", "C07_enc_mutex"),
+    "streams": [SW, PROTO, DET],
+    "level_text": "PROOF (buffering + protocol) under assumption H_pure. Proved for all data, all partitions into Write calls, all job counts and hints: the sequence of blocks handed to the shared stream is chunks(B,data) (C04_writer_blocks), and for every N and every interleaving the N tasks of a batch append their blocks in id order exactly once (C04_schedule_independent). ASSUMED, searched: the per-block encoder is a pure function of (block, parameters) (H_pure) - det stream: real outputs compared byte for byte across job counts 1..64, Write partitions and hook-perturbed schedules for all codecs, including mixed content with more blocks than jobs.",
+    "level_note": BASE_NOTE + "H_pure (no state carried between blocks, `jobs` ignored by encoders) is an assumption backed by the global-state fact base (C18) and the byte-identity search.",
+    "assumptions": ["H_pure: per-block encoding depends only on block bytes and (transform, entropy, block size, checksum, bsVersion)"],
+}
+
+PROPS["C05"] = {
+    "title": "Decoded output is independent of parallelism and preserves block order", "design_ref": "5.5", "level": "proof",
+    "technique": "Lean 4 refinement theorem Reader model -> cursor over the concatenated blocks for all jobs/hints/read sizes; protocol theorems for every N; differential correspondence incl. failing blocks",
+    "theorems": T(R, "C05_reader_refines_spec", "C05_error_position", "C02_nothing_after_error")
+                + T(M07, "C05_schedule_independent", "C07_dec_ordered", "C07_dec_mutex", "C07_dec_cancel_stable"),
+    "streams": [SR, PROTO],
+    "level_text": "PROOF. For every well-formed stream, every decoder job count, every size hint and every sequence of Read sizes the reader model returns exactly the next bytes of the concatenation of the blocks in stream order, each once (refinement to a cursor, C05_reader_refines_spec); when a block fails, every byte ever returned lies before it and nothing is returned after the error (C05_error_position, C02_nothing_after_error); every interleaving of the decode tasks reads frame k by task k only (C05_schedule_independent, all N). Tie: streams built by an independent container builder, read by the real Reader (jobs 1..64, wrong hints, short source reads, failing/oversize/truncated frames), compared call by call; hook traces of real batches replayed through the protocol model.",
+    "level_note": BASE_NOTE + "Codec decode is abstracted to 'frame decodes to block / fails in or after the critical section'.",
+    "assumptions": ["H_codec for the blocks (decode of an encoded block returns the block)"],
+}
+
+PROPS["C06"] = {
+    "title": "Transparent to I/O granularity on both sides", "design_ref": "5.6", "level": "proof",
+    "technique": "Lean 4 refinement of the input bitstream model to a chunking-free bit string (any two chunkings, any buffer sizes); Reader refinement for all read sizes; Writer partition independence; short-read search on real streams",
+    "theorems": T(M06I, "C06_source_chunking", "C06_source_chunking_full", "C06_refill_alignment") + T(M14I, "C14_ibs_readBits", "C14_ibs_readArray")
+                + T(R, "C05_reader_refines_spec") + T(W, "C04_partition_independent"),
+    "streams": [IBS, SR, SW, SHORTREAD],
+    "level_text": "PROOF. Source side: for any two chunkings of the same bytes (any sizes incl. 1 and non-multiples of 8, any buffer sizes) every program of ReadBit/ReadBits/ReadArray yields identical values, counters and errors (C06_source_chunking; after a panic for programs without ReadArray: C06_source_chunking_full) - by refinement of the input bitstream model to a bit string that does not contain the chunking. Read side: the bytes returned depend only on the sum of earlier request sizes (C05_reader_refines_spec, all size sequences incl. 0). Write side: C04_partition_independent. Sink side: whole-buffer writes; short writes without error are excluded by the io.Writer contract. Search: real streams of every entropy codec decoded through readers delivering 1,7,8,13,... byte and adversarial odd-then-multiple-of-8 pieces.",
+    "level_note": BASE_NOTE + "ReadArray after an earlier panic on the same stream is outside C06_source_chunking (the stream layer never reuses a bitstream after a panic).",
+    "assumptions": ["io.Reader contract: (0, nil) reads make no progress and are reported (io.ErrNoProgress)", "io.Writer contract: no short write without error"],
+}
+
+PROPS["C07"] = {
+    "title": "Block hand-off protocol: exclusive, ordered, and always terminating", "design_ref": "5.7", "level": "proof",
+    "technique": "Lean 4 invariant proofs for every N and every interleaving over a step-function model of the atomic-counter protocol; hook traces of the real code replayed through the same step functions",
+    "theorems": T(M07, *C07_ALL),
+    "streams": [PROTO],
+    "level_text": "PROOF for every number of tasks N and every reachable state (all interleavings, failure at any step): mutual exclusion on the shared stream, blocks appended/taken in id order exactly once, deadlock freedom with a measure bounded by 9N (every weakly fair run terminates), cancel value stable, a failure while holding the token blocks all later tasks, batch result = first failed task. Tie: the real encode/decode tasks run under the build-tag hook with perturbed schedules and injected failures; every recorded atomic action (with the counter value it observed) must be an enabled transition of encStep/decStep and the batch outcome must match; hangs are caught by a watchdog.",
+    "level_note": BASE_NOTE + "The protocol model (atomic actions of encode/decode transcribed by hand) is tied by trace replay of hook-instrumented real runs: the hook serialises each atomic op between PRE/POST calls so the recorded order is the real order; Go memory model / sync.WaitGroup semantics are not modelled; 'stop promptly' is formalised as bounded own steps + stable cancel.",
+    "assumptions": ["sync/atomic operations are sequentially consistent (Go memory model)", "WaitGroup.Wait returns only after every Done"],
+}
+
+PROPS["C08"] = {
+    "title": "I/O failures are never swallowed", "design_ref": "5.8", "level": "proof",
+    "technique": "Lean 4 theorems over the Writer model with arbitrary fault placement (closed => complete; error state sticky), over the bitstream models (source/sink errors surface as the failing operation's panic) + fault-annotated differential correspondence with sink-call failure plans",
+    "theorems": T(W, "C08_closed_means_complete", "C08_failed_sticky_reachable", "C08_close_fault_reported") + T(W, "C08_failed_sticky", partial=True)
+                + T(R, "C02_nothing_after_error") + T(R, "C09_no_eof_without_marker", partial=True)
+                + T(M08I, "C08_ibs_error_surfaced", "C08_ibs_pending_bytes", "C08_ibs_deferred")
+                + T(M08O, "C08_obs_no_silent_loss", "C08_obs_close_retry", "C08_obs_io_surfaces", "C08_obs_close_io", "C08_obs_run_no_swallow"),
+    "streams": [SW, SR, IBS, OBS],
+    "level_text": "PROOF (writer/reader state machines + input bitstream). For every program and every placement of sink faults: a writer that ends up closed has emitted every accepted byte in order plus the end marker (C08_closed_means_complete); after a failed block the writer is dead: every Write/Close returns an error (C08_failed_sticky_reachable); a sink error surfaces as the panic of the very bitstream operation whose flush failed, success of all ops + Close implies the sink holds the packed image for every failure plan, and a failed final flush can be retried (C08_obs_*); a source error is surfaced as the failing operation's error after the bytes delivered before it, never converted to end-of-stream (C08_ibs_*); a source that ends or fails before the end marker never yields io.EOF without a prior error (C09_no_eof_without_marker). Tie: the real Writer over a sink that fails its k-th Write (transient/permanent) or Close; where the failure lands (task / end marker / final flush / closer, batch index) is observed and the model must predict every return value; input bitstream with failing sources at every call index.",
+    "level_note": BASE_NOTE + "C08_failed_sticky is PARTIAL as first stated (false on an unreachable state: failed && finalized); the reachable-state version is proved in full.",
+    "assumptions": ["io.Writer contract: a short write returns an error"],
+}
+
+PROPS["C09"] = {
+    "title": "Truncated streams are always detected", "design_ref": "5.9", "level": "proof",
+    "technique": "Lean 4 theorems: bit-level prefix of a framed stream never parses to an end marker; reader model never reports EOF without having consumed the end marker; input bitstream raises end-of-stream instead of fabricating bits; truncation search on real streams",
+    "theorems": T(K, "C09_prefix_truncated", "C10_stream_layout", "C10_frame_layout") + T(R, "C09_no_eof_without_marker", partial=True) + T(M14I, "C14_ibs_eos"),
+    "streams": [SR, IBS, TRUNC],
+    "level_text": "PROOF. (1) Container: any strict bit prefix of frames++endmarker parses to a prefix of the payloads followed by `truncated`, never to an end marker (C09_prefix_truncated; a cut of whole bytes always drops a real bit since Close pads < 8 bits). (2) Input bitstream: asking for more bits than remain raises end-of-stream, never fabricated zero bits, in every read path incl. the unaligned bulk loops (C14_ibs_eos). (3) Reader: for ANY frame list without end marker no sequence of Reads returns io.EOF unless an error was returned before (C09_no_eof_without_marker; PARTIAL: under the hypothesis that no frame decodes to zero bytes without error - true of every frame a writer produces, since blocks are never empty; the unrestricted statement is false for the model and the counterexample is kept as theorem no_eof_without_marker_counterexample), with or without checksums. Search: every cut position of small real streams of every codec, boundary and random cuts of large ones.",
+    "level_note": BASE_NOTE + "Truncation inside the header is reported by readHeader (real code, covered by the hash/trunc streams, header parse model C10_header_roundtrip).",
+    "assumptions": [],
+}
+
+PROPS["C10"] = {
+    "title": "Streams written by the reference encoder keep decoding (format stability)", "design_ref": "5.10", "level": "proof",
+    "technique": "PARTIAL Lean proof: header and frame layout written by hand from the format and proved to round-trip; models tied to the current code differentially; cross-version differential against a vendored pinned reference + archived golden corpus",
+    "theorems": T(M10H, "C10_header_roundtrip", "C10_header_writer_wf", "C10_header_length", "C10_header_crc_detects_single_field") + T(K, "C10_frame_layout", "C10_end_marker", "C10_stream_layout"),
+    "streams": [HASH, SR, GOLDEN],
+    "level_text": "PARTIAL PROOF + cross-version differential. Proved: the version-6 header layout (constants written by hand from the format) and the frame layout parse back exactly (C10_header_roundtrip, C10_frame_layout, C10_stream_layout); these make the Lean/Go container builders independent encoders whose NONE/NONE streams the current Reader must decode (sr stream), so a symmetric change of header layout, CRC, hash or length coding is detected. NOT modelled: codec bit formats other than NONE: covered by decoding streams produced by the vendored pinned reference (never edited) and an archived golden corpus with SHA-256 of the originals.",
+    "level_note": BASE_NOTE + "The vendored reference snapshot ref/kanzi-go-v2 (pinned commit 76efab5) and the golden corpus are trusted as the definition of format 6.",
+    "assumptions": [],
+}
+
+PROPS["C11"] = {
+    "title": "Block-range decoding returns exactly the requested slice", "design_ref": "5.11", "level": "proof",
+    "technique": "Lean 4 refinement theorem with arbitrary from/to (all ranges, all job counts) + exhaustive-range differential correspondence",
+    "theorems": T(R, "C05_reader_refines_spec", "C11_skipped_not_decoded") + T(W, "C04_writer_blocks"),
+    "streams": [SR],
+    "level_text": "PROOF. C05_reader_refines_spec is stated with arbitrary optional from/to: the bytes returned are exactly the concatenation of blocks from..to-1 (empty ranges and ranges beyond the last block included, all-skipped batches repeated until data or end marker), for every job count and read-size sequence; C11_skipped_not_decoded: only ids in range are ever handed to the codec; block k covers bytes (k-1)B..kB-1 because the writer emits chunks(B,data) (C04_writer_blocks). Tie: exhaustive (from,to) over streams of 1..12 blocks x jobs 1..8 on the real Reader, decoded ids observed through the public listener API.",
+    "level_note": BASE_NOTE,
+    "assumptions": ["valid stream"],
+}
+
+PROPS["C12"] = {
+    "title": "Entropy codecs: exact inverse pairs with bit-exact consumption", "design_ref": "5.12", "level": "proof",
+    "technique": "PARTIAL Lean proof: varint, alphabet, NONE codec, ANS/Range frequency headers, rANS step incl. reciprocal division proved as inverse pairs with exact consumption on bit strings; whole ANS0 chunks tied differentially; all 9 codecs searched directly on the real code",
+    "theorems": T(M12, "C12_varint", "C12_alphabet", "C12_none", "C12_freq_header", "C12_freq_header_needs_sum", "C12_freq_header_after_normalize", "C12_ans_reciprocal", "C12_ans_encode_closed_form", "C12_ans_step")
+                + T(M16, "C16_normalize"),
+    "streams": [ENTSMALL, ENTDIRECT],
+    "level_text": "PARTIAL PROOF. Proved in Lean, each as `decode (encode x ++ rest) = (x, rest)` for every trailing bit string (exact consumption): VarInt, alphabet (all three encodings), the NONE codec for every length incl. 0 and > 2^23, the ANS order-0 and Range frequency headers (correct iff the table sums to 2^lr - which C16_normalize guarantees: C12_freq_header_after_normalize), one rANS step incl. the reciprocal-multiply division for every frequency and state. The ANS order-0 chunk loop (4 interleaved states) is modelled and tied differentially (byte-identical output on thousands of blocks) but has no theorem. NOT modelled: Huffman, Range arithmetic, ANS order 1, FPAQ, CM, TPAQ, TPAQX - searched directly on the real code (entdirect: all 9 codecs, lengths around every chunk boundary, 1..256 symbols, adversarial histograms, misaligned start, trailing sentinel, Read()==Written()).",
+    "level_note": BASE_NOTE + "logRange restricted to [8,15] as used by the factory (16 is accepted by the public constructors but unusable: observation in DESIGN.md).",
+    "assumptions": ["adaptive binary codecs run the identical predictor on both sides (searched)"],
+}
+
+PROPS["C13"] = {
+    "title": "Transforms: exact inverse pairs, in bounds, clean decline", "design_ref": "5.13", "level": "proof",
+    "technique": "PARTIAL Lean proof: Null, ZRLT, SBRT (all modes) and the transform sequence with skip flags proved as inverse pairs with output bounds; byte-identical differential tie; all 19 transforms searched directly with canaries",
+    "theorems": T(M13, "C13_null", "C13_zrlt", "C13_zrlt_bytes", "C13_zrlt_no_wrap", "C13_sbrt", "C13_sequence", "C13_sequence_plain", "C13_sequence_all_declined", "C13_sequence_mode_byte", "C13_sequence_len", "C13_sequence_small"),
+    "streams": [TRSMALL, TRDIRECT],
+    "level_text": "PARTIAL PROOF. Proved for all blocks: Null, ZRLT (output <= MaxEncodedLen, inverse restores), SBRT in every mode; the transform sequence for up to 8 stages and every pattern of declining stages (skip flags in the mode byte or the extra byte recover exactly; all-declined leaves the block; composed MaxEncodedLen bounds the output). Models tied by byte-identical outputs on tens of thousands of blocks. NOT modelled: BWT/BWTS, LZ/LZX/LZP, ROLZ/ROLZX, TEXT, UTF, EXE, MM, PACK/DNA, SRT, RLT - searched directly on the real code (trdirect: every transform and the CLI chains, pipeline buffer sizes with canaries, input-intact checks, data-type hints, all data shapes).",
+    "level_note": BASE_NOTE + "'input left unmodified' is immediate in the value-level model and checked on the real buffers by the trdirect oracle.",
+    "assumptions": [],
+}
+
+PROPS["C14"] = {
+    "title": "Bitstream writer and reader are exact mirrors for every operation sequence", "design_ref": "5.14", "level": "proof",
+    "technique": "Lean 4 refinement of BitVec-64 models of both bitstreams (aligned and unaligned bulk paths included) to abstract bit strings; differential correspondence op by op incl. counters",
+    "theorems": T(M14I, "C14_ibs_readBits", "C14_ibs_readBit", "C14_ibs_readArray", "C14_ibs_eos", "C14_ibs_hasMore", "C14_ibs_closed", "C14_mirror", "C14_mirror_ibs")
+                + T(M14O, "C14_obs_writeBit", "C14_obs_writeBits", "C14_obs_writeArray", "C14_obs_program", "C14_obs_closed"),
+    "streams": [IBS, OBS],
+    "level_text": "PROOF. Input bitstream: every ReadBit/ReadBits(1..64)/ReadArray(k bits, any k, any alignment, aligned bulk copy with refills, 256-bit and 64-bit unaligned word loops) returns the next bits of the source and advances Read() by exactly that many; too few bits => end-of-stream error; closed streams refuse operations (C14_ibs_*). Mirror: reading the packed image of written bits with the same op sizes returns the written values (C14_mirror). Output bitstream: every WriteBit/WriteBits/WriteArray (any k, any alignment, any buffer position: aligned bulk copy, 256-bit and 64-bit unaligned loops) appends exactly its bits to the abstract content, Written() equals the number of bits after every op, Close yields the big-endian packed image zero padded, closed streams refuse every write without side effects (C14_obs_*, C14_obs_program for every program). Tie: both real bitstreams driven op by op (values, counters after every op, final image, panics) against the models and against an independent Go bit-vector oracle, generators forcing every (alignment, length mod 64, distance to buffer end) class.",
+    "level_note": BASE_NOTE,
+    "assumptions": [],
+}
+
+PROPS["C15"] = {
+    "title": "Codec names: case-insensitive, canonical, and consistent end to end", "design_ref": "5.15", "level": "proof",
+    "technique": "Lean 4: name/type/variant tables regenerated from the real functions on every run and decided exhaustively; general chain-packing law proved for all token lists; differential correspondence; full Writer/Reader path search over spellings",
+    "facts": ["Names"],
+    "theorems": T(M15, "C15_case_tables_exact", "C15_case_insensitive", "C15_tables_inverse", "C15_variant_consistent", "C15_variant_probes_discriminate", "C15_upper_special",
+                  "C15_chain_canonical", "C15_chain_canonical_strong", "C15_chain_fits48", "C15_name_roundtrip", "C15_getType_errors", "C15_entropy_roundtrip"),
+    "streams": [NAMES, NAMESRT],
+    "level_text": "PROOF. Tables (regenerated by calling the real GetType/GetName/constructors for EVERY case variant of every name, then decided in the kernel): every spelling maps to the canonical token, name<->type tables are inverse, every spelling selects the same codec variant as the canonical one at all five variant-selection sites (ROLZX, TPAQX predictor, TEXT hash size x2, fast-entropy check). General: for every list of 1..8 tokens in any spelling GetName(GetType(chain)) is the upper-cased chain with NONE removed (C15_name_roundtrip, C15_chain_canonical for all token lists). Search: the full Writer path - streams for every spelling byte-identical to the canonical spelling and decodable, including headerless readers given differently spelled names.",
+    "level_note": BASE_NOTE + "Variant selection is observed through public behaviour on fixed probe blocks (C15_variant_probes_discriminate shows the probes tell the variants apart).",
+    "assumptions": [],
+}
+
+PROPS["C16"] = {
+    "title": "Frequency scaling always yields a valid table", "design_ref": "5.16", "level": "proof",
+    "technique": "Lean 4 theorem (all histograms, all scales) over a hand-written model of NormalizeFrequencies + differential correspondence model<->Go",
+    "theorems": T(M16, "C16_normalize", "C16_errors", "C16_no_overflow"),
+    "streams": [NORM],
+    "level_text": "PROOF: for every histogram over <=256 symbols with positive total and every scale in [256,65536] the model of NormalizeFrequencies returns a table that sums to scale, preserves the support and lists it in increasing order (Lean theorem C16_normalize, no bound on counts). The model is tied to the Go function on every run by the `norm` correspondence (tens of thousands of histograms incl. exhaustive small families; outputs compared entry by entry) and the property oracle is evaluated on the real function for each of them.",
+    "level_note": BASE_NOTE + "Caller contract totalFreq = sum(freqs) (inputs violating it are outside the model and refused with `pre`).",
+    "assumptions": ["caller passes totalFreq = sum of freqs (true at all three call sites)", "Go int is 64-bit (C16_no_overflow bounds intermediates below 2^63 for totals < 2^31)"],
+}
+
+PROPS["C17"] = {
+    "title": "Stream object lifecycle behaves like the documented state machine", "design_ref": "5.17", "level": "proof",
+    "technique": "Lean 4 theorems over state-machine models of Writer/Reader (all call sequences) + differential correspondence of random call programs against the real code",
+    "theorems": T(W, "C17_closed_absorbing", "C17_getWritten_monotone", "C17_getWritten_final", "C04_writer_blocks")
+                + T(R, "C17_reader_closed", "C05_reader_refines_spec"),
+    "streams": [SW, SR],
+    "level_text": "PROOF over the Writer/Reader models for every call sequence: Close idempotent and absorbing (Write/Read after Close return an error and change nothing), Write returns its full length on success, a writer closed without any Write emits header + end marker only (decodes to empty by C05_reader_refines_spec on the empty block list), GetWritten monotone and equal to the image size after a successful Close. Tie: random call programs (zero-length calls, repeated Close, calls after Close, jobs 1..64, aligned/unaligned sizes) on the real Writer and Reader compared call by call with the models; oracles on the real run: counters, closer called once, sink size = GetWritten.",
+    "level_note": BASE_NOTE + "The per-block codec is NONE/NONE in the correspondence (lifecycle logic does not depend on the codec).",
+    "assumptions": ["healthy sink/source for the lifecycle theorems (failures: see C08)"],
+}
+
 PROPS["C18"] = {
-    "title": "Independent streams do not interfere and internals are race-free",
-    "design_ref": "5.18",
-    "level": "proof",
+    "title": "Independent streams do not interfere and internals are race-free", "design_ref": "5.18", "level": "proof",
     "technique": "PARTIAL Lean proof: no package-level variable is written after init (decided over a fact base regenerated from /repo) + protocol mutual-exclusion theorems; data races observed with the race detector under perturbed schedules",
     "facts": ["Globals"],
-    "theorems": T("Kanzi.Properties.C18_facts", "Kanzi.C18.C18_globals_readonly", "Kanzi.C18.C18_global_aliases_reviewed", "Kanzi.C18.C18_facts_nonvacuous")
-              + T("Kanzi.Properties.C07", "Kanzi.C07.C07_enc_mutex", "Kanzi.C07.C07_dec_mutex"),
-    "streams": [],
+    "theorems": T(M18F, "C18_globals_readonly", "C18_global_aliases_reviewed", "C18_facts_nonvacuous") + T(M07, "C07_enc_mutex", "C07_dec_mutex"),
+    "streams": [RACE], "race": True,
     "level_text": "PARTIAL PROOF. Proved: (1) every package-level variable of the library is written only by init / its own initialiser, and every place where a reference into a global table escapes is pinned and reviewed (theorems by `decide` over Generated/Globals.lean, re-extracted from /repo's AST on every run); (2) the shared bitstream is accessed by at most one task at a time for every N and every interleaving (C07 mutex theorems). NOT proved: the Go memory model itself and accesses inside codecs (e.g. inverse BWT workers writing disjoint ranges) - observed only, with the race detector under hook-perturbed schedules.",
-    "level_note": "Trusted: Lean kernel; the syntactic extractor (writes through aliases are listed as aliases, not proved absent); race detector for the observed part.",
+    "level_note": BASE_NOTE + "The syntactic extractor lists writes through aliases as aliases, it does not prove their absence; race detector for the observed part.",
     "assumptions": ["reads of immutable package-level tables need no synchronisation", "writes through the reviewed aliases do not occur (reviewed by hand, pinned by C18_global_aliases_reviewed)"],
+}
+
+PROPS["C19"] = {
+    "title": "Command-line tool: tree round trip and file safety", "design_ref": "5.19", "level": "proof", "needs_cli": True,
+    "technique": "PARTIAL Lean proof over a file-system effect model of one file task (no clobber, input untouched, remove-safe at every crash point) with an acceptor run on strace projections of the real binary; tree round trips, refusals and SIGKILL runs on the real binary",
+    "theorems": T("Kanzi.Properties.C19_cli", "C19_no_clobber", "C19_input_untouched", "C19_remove_safe", "C19_acceptor_sound", "C19_trace_accepted"),
+    "streams": [CLI],
+    "level_text": "PARTIAL PROOF. Proved on the effect model of one file task (openOut excl|trunc, write*, closeOut, closeIn, unlink src; crash after any prefix): without force an existing output is never opened for writing and nothing else happens; no effect targets the input except the final unlink; at every crash point the source still has its content or the output is complete and closed; any trace accepted by `cliAccepts` has these properties at every prefix (C19_acceptor_sound). Tie: strace projections (openat/write/close/unlink on the input and output paths) of real runs of the built binary must be accepted. NOT modelled: kernel durability (no fsync: power loss out of scope, SIGKILL is not), directory walking, argument parsing, the level table. Search on the real binary: random trees (empty files, nested dirs, names with spaces) x levels 0-9 / -t -e -b -j -x / --rm / -f / stdin-stdout / -o dir: tree restored byte for byte with exit 0; refusals leave existing files untouched; SIGKILL at random times during --rm runs then every source is intact or its output decodes to it.",
+    "level_note": BASE_NOTE + "strace and the kernel for the observed part; TPAQ-level scenarios are capped in size.",
+    "assumptions": ["close(2) reports deferred write errors", "unlink is atomic"],
 }
 
 HOOK_COMMITS = ["a321cbc"]
